@@ -121,7 +121,9 @@ def snapshot(client: Obj):
                 if isinstance(els, Dct):
                     for ek, ev in els.pairs:
                         e[show(ek).strip("'")] = show(ev.attrs.get("_value")) if isinstance(ev, Obj) else show(ev)
-                d[show(vk).strip("'")] = {"cls": vv.cls.name if vv.cls else None, "state": show(vv.attrs.get("state")).strip("'"), "elements": e}
+                d[show(vk).strip("'")] = {"cls": vv.cls.name if vv.cls else None, "state": show(vv.attrs.get("state")).strip("'"), "elements": e,
+                                          "meta": (show(vv.attrs.get("name")).strip("'"), show(vv.attrs.get("label")).strip("'"), show(vv.attrs.get("group")).strip("'")),
+                                          "element_meta": {show(ek).strip("'"): (show(ev.attrs.get("name")).strip("'"), show(ev.attrs.get("label")).strip("'")) for ek, ev in (els.pairs if isinstance(els, Dct) else []) if isinstance(ev, Obj)}}
         out[show(dk).strip("'")] = d
     return out
 
